@@ -15,6 +15,19 @@ CHECKS = {
             "bounds: depth 2-4, 12 configurations; quick tier sweeps a subset of the 32768 offsets, thorough all", "DESIGN.md §6 C02"),
  "C05": seq("all pre-histories x all staging sequences within the bound with Batch.Get of every key after every staging step compared with a layered reference map; Commit result, reuse rejection, and the state after restart compared with the fold of the batch in issue order",
             "bounds: 3 keys, pre-history <=2-3 ops, staging <=4-6 ops incl. overflow of DataFileSize mid-way", "DESIGN.md §6 C05"),
+ "C10": seq("every subset of a 6-key universe x direction x index type x shard count x prefix x every call sequence (Rewind/Seek/Next/one interleaved write) within the bound, at index level and at DB level; (Valid, Key, Value) compared with a sorted-slice cursor model after every call; ListKeys and Fold compared with the same snapshot",
+            "bounds: 6 keys, 10 seek targets, 5 prefixes, call sequences of 4-6 calls; backward seeks are pruned (unspecified)", "DESIGN.md §6 C10"),
+ "C11": ("sweep", "exhaustive sweep of start offsets x record-length windows x write shapes at the data-file layer, format-agnostic round-trip oracle",
+            "for every start offset of the sweep set, every record length in +-48 windows around the end-of-block boundaries for records spanning 1-3 blocks, single writes and FlushStaged groups, both back-ends: sequential and random read-back, positions, sizes, EOF, byte-identical files, reopen+append; hint records through the same writer/reader",
+            "quick tier sweeps 768 of the 32768 start offsets, thorough all; lengths beyond 3 blocks are not swept", "DESIGN.md §6 C11"),
+ "C13": seq("operation sequences under every SyncStrategy x BytesPerSync x I/O back-end; at the return of every public call the per-file unflushed-byte accounting derived from the intercepted write/fsync/msync events is judged against the policy (Always, Threshold, Sync batch, Sync(), Close(), rotation)",
+            "flush is judged at (*os.File).Sync / mmap Flush; MMap writes are seen through a recording wrapper of (*MMap).Write; only *.data files of the data directory", "DESIGN.md §6 C13"),
+ "C14": seq("every operation sequence within the bound is executed in lock-step under 16-20 configurations; complete transcripts (results, errors, iteration orders, recovered mapping) must be identical; within equal (DataFileSize, sync strategy) also Stat and, for batch-free sequences, the data-file bytes",
+            "configuration set = single-dimension variants + mixed rows, not the full product; adversarial caller reusing its buffers", "DESIGN.md §6 C14"),
+ "C15": seq("operation sequences executed by an adversarial caller that reuses ONE key and ONE value buffer and poisons them after every return, for every index type: reference-map oracle on every read path, canary check of the caller's buffers, slices returned by Get/ListKeys compared with copies taken at return",
+            "sync.Pool replaced by a deterministic LIFO free list (the adversarial legal behaviour)", "DESIGN.md §6 C15"),
+ "C20": seq("operation sequences with Backup at every position under both I/O back-ends; every Backup is verified (copy opens while the source is open, equal dump, no lock file, independent), then the source's reference-map oracle continues through a 3-block Put and a restart",
+            "SIGBUS is turned into a recoverable panic and reported; backups of databases with > 4 operations are not explored", "DESIGN.md §6 C20"),
  "C17": seq("C01's operation sequences; after every step Stat is compared with values recomputed independently from the data files decoded with the package's own sequential reader (live bytes, file count, key count, size-limit rule)",
             "byte-level recomputation for Standard I/O only; DiskSize itself is not pinned by the statement", "DESIGN.md §6 C17"),
 }
